@@ -13,6 +13,9 @@ import (
 type queuedWorkSpace struct {
 	ws          *WorkSpace
 	wouldMining bool
+	// stopEpoch is ws.stopEpoch at the time of the request: a request older than the
+	// last stop/remove/delete of its workSpace is void
+	stopEpoch int
 }
 
 // newQueuedWorkSpace creates queuedWorkSpace from an existing workSpace.
@@ -21,6 +24,7 @@ func newQueuedWorkSpace(ws *WorkSpace, wouldMining bool) *queuedWorkSpace {
 	return &queuedWorkSpace{
 		ws:          ws,
 		wouldMining: wouldMining,
+		stopEpoch:   ws.stopEpoch,
 	}
 }
 
@@ -136,6 +140,13 @@ func (sk *SpaceKeeper) spacePlotter() {
 		}
 		// Step 1: safely change state to plotting/mining
 		sk.stateLock.Lock()
+		if qws.stopEpoch != ws.stopEpoch {
+			// the workSpace was stopped (removed, deleted) after this request was made;
+			// the request may have been waiting in the hand-off channel, out of reach
+			// of queue.Delete
+			sk.stateLock.Unlock()
+			return
+		}
 		if _, ok := sk.workSpaceIndex[engine.Registered].Get(sid); ok {
 			changeState(engine.Registered, engine.Plotting)
 		} else {
